@@ -339,7 +339,10 @@ def _desugar_properties(mods):
         if len(defs) != 1 or name in stored:
             continue
         cdef, fn = defs[0]
-        if not (len(fn.decorator_list) == 1 and isinstance(fn.decorator_list[0], ast.Name) and fn.decorator_list[0].id == "property"):
+        is_prop = len(fn.decorator_list) == 1 and isinstance(fn.decorator_list[0], ast.Name) and fn.decorator_list[0].id == "property"
+        # ... and so is a method without arguments that is one expression of the fields (`can_reach_final()` = `reach_probability != 0`)
+        is_pred = not fn.decorator_list and not name.startswith("__") and not fn.args.vararg and not fn.args.kwarg and not fn.args.kwonlyargs
+        if not (is_prop or is_pred):
             continue
         body = [b for b in fn.body if not (isinstance(b, ast.Expr) and isinstance(b.value, ast.Constant))]
         if len(body) != 1 or not isinstance(body[0], ast.Return) or body[0].value is None or len(fn.args.args) != 1:
@@ -353,13 +356,43 @@ def _desugar_properties(mods):
             continue
         if not all(isinstance(getattr(x, "parent", None), ast.Attribute) or True for x in ast.walk(e)):
             continue
-        ro[name] = (me, e, cdef, fn)
+        if not is_prop and not any(isinstance(x, ast.Attribute) and isinstance(x.value, ast.Name) and x.value.id == me for x in ast.walk(e)):
+            continue                    # (a constant-returning stub is somebody's default implementation, not a predicate of the fields)
+        ro[name] = (me, e, cdef, fn, is_prop)
     if ro:
+        # a predicate method that is also referred to without being called (handed over as a value) stays a method
+        called_only = {}
+        for m in mods.values():
+            for n in ast.walk(m.tree):
+                if isinstance(n, ast.Attribute) and n.attr in ro and not ro[n.attr][4]:
+                    par = getattr(n, "parent", None)
+                    okc = isinstance(par, ast.Call) and par.func is n and not par.args and not par.keywords
+                    called_only[n.attr] = called_only.get(n.attr, True) and okc
+        for nm in [k for k, v in ro.items() if not v[4] and not called_only.get(k, False)]:
+            del ro[nm]
+
         class RO(ast.NodeTransformer):
+            def visit_Call(self, n):
+                self.generic_visit(n)
+                f_ = n.func
+                if isinstance(f_, ast.Attribute) and f_.attr in ro and not ro[f_.attr][4] and not n.args and not n.keywords \
+                        and isinstance(f_.value, (ast.Name, ast.Attribute, ast.Subscript)):
+                    me, e = ro[f_.attr][0], ro[f_.attr][1]
+                    recv = f_.value
+
+                    class S2(ast.NodeTransformer):
+                        def visit_Name(self, x):
+                            return _copy.deepcopy(recv) if x.id == me else x
+                    new = S2().visit(_copy.deepcopy(e))
+                    for x in ast.walk(new):
+                        ast.copy_location(x, n)
+                    return new
+                return n
+
             def visit_Attribute(self, n):
                 self.generic_visit(n)
-                if isinstance(n.ctx, ast.Load) and n.attr in ro and (isinstance(n.value, ast.Name) or (isinstance(n.value, (ast.Attribute, ast.Subscript)))):
-                    me, e, _, _ = ro[n.attr]
+                if isinstance(n.ctx, ast.Load) and n.attr in ro and ro[n.attr][4] and (isinstance(n.value, ast.Name) or (isinstance(n.value, (ast.Attribute, ast.Subscript)))):
+                    me, e = ro[n.attr][0], ro[n.attr][1]
                     recv = n.value
 
                     class S(ast.NodeTransformer):
@@ -372,7 +405,7 @@ def _desugar_properties(mods):
                 return n
         for m in mods.values():
             RO().visit(m.tree)
-        for name, (_, _, cdef, fn) in ro.items():
+        for name, (_, _, cdef, fn, _isp) in ro.items():
             cdef.body = [b for b in cdef.body if b is not fn] or [ast.Pass()]
         done = True
     if done:
@@ -1075,6 +1108,13 @@ class Program:
                 if attr and m2 in self.mods and attr in self.mods[m2].consts:
                     return self.const_eval(self.mods[m2].consts[attr], self.mods[m2], None, depth + 1)
             raise NotConst(node.id)
+        if isinstance(node, ast.Attribute) and isinstance(node.value, ast.Name) and node.value.id == "math" and node.attr in ("inf", "pi", "e", "tau") \
+                and "math" not in mod.consts and "math" not in mod.funcs:
+            import math as _math
+            return getattr(_math, node.attr)
+        if isinstance(node, ast.Call) and isinstance(node.func, ast.Name) and node.func.id == "float" and len(node.args) == 1 and not node.keywords \
+                and isinstance(node.args[0], ast.Constant) and node.args[0].value in ("inf", "-inf", "+inf", "infinity"):
+            return float(node.args[0].value)
         if isinstance(node, ast.UnaryOp):
             v = ce(node.operand)
             if isinstance(node.op, ast.USub):
